@@ -439,7 +439,9 @@ func runC13(r *Run, stratum string) *Violation {
 	if c.viol == nil {
 		quiet := 0
 		endA, endB := int64(-1), int64(-1)
-		for round := 0; round < 400 && c.viol == nil; round++ {
+		// the round budget covers the backlog the clients left behind (a unit per client write, a few requests per unit,
+		// one request per session and round) plus 400 rounds; an echo that keeps going exhausts any budget
+		for round := 0; round < 400+40*maxOps && c.viol == nil; round++ {
 			r.Settle()
 			progressed := false
 			for _, l := range links {
@@ -477,7 +479,7 @@ func runC13(r *Run, stratum string) *Violation {
 			}
 		}
 		if c.viol == nil && quiet < 12 {
-			c.setViolation("C13.no_quiescence", "the exchange does not quiesce", "40 s of virtual time after the last client write the replication streams still grow (A=%d B=%d)", endA, endB)
+			c.setViolation("C13.no_quiescence", "the exchange does not quiesce", "%d rounds after the last of %d client writes (each round: every session executes one request, or 100 ms pass) the replication streams still grow (A=%d B=%d)", 400+40*maxOps, len(c.ops), c.a.srv.Repl.End(), c.b.srv.Repl.End())
 		}
 	}
 	if c.viol == nil {
